@@ -74,6 +74,11 @@ CHECKS.update({
    text="After every single stimulus: per stream BufferedAmount() equals accepted bytes minus bytes newly acknowledged (cumulative, gap-then-cumulative, skipped after abandonment) per the harness ledger, the association figure equals the sum over streams, everything returns to exactly 0, failed writes roll back, the low-threshold callback runs once per downward crossing and may call back into stream and association.",
    note="Exact callback counting only for non-blocking writers with plain callback bodies (otherwise the amount can cross twice inside one quiescent step; there only 'not fewer than crossings' is required). A callback that deadlocks on library locks is reported through the watchdog.", ref="6/C15"),
 })
+CHECKS.update({
+ "C10": dict(level="exploration", technique="property-based testing (rapid): real sender against a puppet receiver with generated acknowledgement policy (window sequences incl. 0, ignored transmissions, delayed and withheld SACKs); wire ledger of outstanding bytes judged at every emitted packet; congestion-window laws at every quiescent point",
+   text="At every first transmission of a TSN the outstanding bytes (recomputed from the wire and the SACKs actually delivered) must stay within the congestion window and the peer's last advertised window unless nothing was outstanding (probe); packets with user data fit the MTU; cwnd never drops below one MTU, equals max(MTU, MinCwnd) right after a T3 expiry and is at most max(cwnd/2, 4 MTU, MinCwnd) on entering fast recovery.",
+   note="cwnd is read at the instant of the packet write and at the preceding quiescent point (the larger is used); retransmissions are not 'new user data' and are not judged against the windows.", ref="6/C10"),
+})
 NOT_YET = {}
 props = [json.loads(l) for l in open(os.path.join(V, "properties.jsonl"))]
 checks = []
